@@ -232,6 +232,8 @@ def run_scenario(spec, fault=None, cut=None, fine=False):
                 if lost:
                     vs.append(("request-on-a-surviving-connection-never-answered", f"[{name}] socket {s_.idx}: {lost[:3]}"))
         vs += service_probe(sc, limit, f"{name}")
+        if name in ("outbound-handshake", "outbound-handshake-in-progress"):
+            vs += outbound_probe(sc, name)
         return steps, vs
     except sk.Livelock as e:
         return 0, [("livelock:node-threads-never-reach-quiescence", f"{e}")]
@@ -321,6 +323,48 @@ def service_probe(sc, limit, ctx):
     if len(workers) > 2 * listed:
         vs.append(("capacity:worker-threads-of-ended-connections-still-running",
                    f"{len(workers)} connection worker threads alive, the node lists {listed} connection(s)"))
+    return vs
+
+
+def outbound_probe(sc, ctx):
+    """The persistent peer the node dials itself: when the faults have cost it its connection (no DPR was involved), the node dials it
+    again once the reconnect wait is over, completes the capabilities exchange and serves a request over the new connection."""
+    nw = sc.nw
+    vs = []
+    dialled = [s for s in sc.socks if s.kind == "dialled"]
+    if not dialled:
+        return vs
+    if any(not s.fs.closed and not s.env_closed for s in dialled):
+        return vs       # the connection has survived (or its handshake is still open): nothing to re-establish
+    if any(f.h.code == 282 for s in dialled for f in s.inreq):
+        return vs
+    n0 = len(sc.socks)
+    nw.world.jump(601)
+    nw.run()
+    sc.sync()
+    for _ in range(2):
+        sc.apply(("tick", 1))
+    new = [s for s in sc.socks[n0:] if s.kind == "dialled"]
+    if not new:
+        vs.append(("probe:persistent-peer-never-dialled-again-after-its-connection-was-lost", f"[{ctx}] {len(dialled)} earlier attempt(s), none 601 s after the loss"))
+        return vs
+    d = new[-1]
+    if not sc.apply(("m", d.idx, "cea_ok")):
+        vs.append(("probe:redialled-connection-sent-no-CER", f"[{ctx}] frames {d.out}"))
+        return vs
+    conn = nw.conn_of(d.fs)
+    if conn is None or conn.state != 0x12:
+        vs.append(("probe:redialled-connection-not-ready-after-its-CEA", f"[{ctx}] state {getattr(conn, 'state', None)}"))
+        return vs
+    # (this peer is not among the application's peers: as on a fresh node its request is answered 3007 by the node itself)
+    if not sc.apply(("m", d.idx, "req")):
+        vs.append(("probe:cannot-send-a-request-on-the-redialled-connection", f"[{ctx}]"))
+        return vs
+    for _ in range(2):
+        sc.apply(("tick", 1))
+    ans = [f.result_code for f in d.out if not f.h.is_request and f.h.code == 271]
+    if ans != [3007]:
+        vs.append(("probe:request-on-the-redialled-connection-not-answered-as-on-a-fresh-node", f"[{ctx}] answers {ans}, want [3007]"))
     return vs
 
 
